@@ -30,8 +30,109 @@ CORPUS = [
 KINDS = ["timed_window", "timed_window_unique", "partition_timeout", "timed_window", "partition_timeout", "buffer", "rate_limit"]
 
 
+def indexed_key_case(rng):
+    """records are tuples (k, v) / dicts {"k": k, "v": v}; the key is given as an INDEX or a field name, not as a callable"""
+    form = rng.choice(["tuple0", "tuple1", "dict"])
+    kind = rng.choice(["timed_window_unique", "timed_window_unique", "partition_timeout"])
+    case = {"indexed_key": True, "kind": kind, "form": form, "keep": rng.choice(["first", "last"]), "n": rng.choice([2, 3]),
+            "timeout": rng.choice([1, 2]), "ops": []}
+    v = 0
+    for _ in range(rng.randint(4, 10)):
+        if rng.random() < 0.3:
+            case["ops"].append(["adv", rng.choice([0.5, 1, 2])])
+        else:
+            v += 1
+            case["ops"].append(["emit", rng.choice([0, 0, 1, 2, "", None]) if form != "tuple1" else v, v])     # (key, value): falsy keys included
+    case["ops"].append(["adv", 3])
+    return case
+
+
+def run_indexed_key_case(ctx, case):
+    """model-free: the real node with key=<index | field name> against a direct computation of the documented meaning"""
+    import asyncio
+    from streamz import Stream
+    from tornado.ioloop import IOLoop
+    from .. import vloop
+    form, kind = case["form"], case["kind"]
+    key = {"tuple0": 0, "tuple1": 1, "dict": "k"}[form]
+
+    def rec(k, v):
+        return {"k": k, "v": v} if form == "dict" else ((k, v) if form == "tuple0" else (v, k))
+
+    def keyof(r):
+        return r["k"] if form == "dict" else r[key]
+    got, log = [], []
+
+    async def main(loop):
+        src = Stream(asynchronous=True, loop=IOLoop.current())
+        if kind == "timed_window_unique":
+            node = src.timed_window_unique(1, key=key, keep=case["keep"])
+        else:
+            node = src.partition(case["n"], timeout=case["timeout"], key=key)
+        node.sink(lambda b: got.append((loop.time(), list(b))))
+        await vloop.settle(loop)
+        t0 = loop.time()
+        for op in case["ops"]:
+            if op[0] == "emit":
+                r = rec(op[1], op[2])
+                log.append((loop.time() - t0, r))
+                await src.emit(r)
+            else:
+                await vloop.advance(op[1], loop)
+            await vloop.settle(loop)
+        return t0
+    t0 = vloop.run(main)
+    batches = [(round(t - t0, 6), b) for t, b in got if b]
+    flat = [r for _, b in batches for r in b]
+    arrivals = [r for _, r in log]
+    ctx.case(case, nontrivial=len(arrivals) >= 3)
+    ctx.count("indexed-key:" + kind + ":" + form)
+    what = None
+    if kind == "timed_window_unique":
+        # windows of length 1 starting at t0: per window one record per key (first / last arrival of the key), in the batch order the node
+        # documents (first: order of first arrival; last: order of last arrival)
+        want = []
+        wins = {}
+        for t, r in log:
+            wins.setdefault(int(t // 1), []).append(r)
+        for w in sorted(wins):
+            rs = wins[w]
+            if case["keep"] == "first":
+                seen, out = [], []
+                for r in rs:
+                    if keyof(r) not in seen:
+                        seen.append(keyof(r))
+                        out.append(r)
+            else:
+                out = []
+                for i, r in enumerate(rs):
+                    if all(keyof(q) != keyof(r) for q in rs[i + 1:]):
+                        out.append(r)
+            want += out
+        if flat != want:
+            what = "timed_window_unique(1, key=%r, keep=%s) over %r delivered %r; one record per key and window is %r" % (key, case["keep"], arrivals, flat, want)
+    else:
+        per_key = {}
+        for r in arrivals:
+            per_key.setdefault(repr(keyof(r)), []).append(r)
+        for _, b in batches:
+            ks = {repr(keyof(r)) for r in b}
+            if len(ks) != 1 or len(b) > case["n"]:
+                what = "partition(%d, timeout, key=%r) emitted %r: one key per partition, at most n members" % (case["n"], key, b)
+                break
+        if what is None:
+            for k, rs in per_key.items():
+                if [r for r in flat if repr(keyof(r)) == k] != rs:
+                    what = "partition(key=%r): key %s received %r, delivered %r" % (key, k, rs, [r for r in flat if repr(keyof(r)) == k])
+                    break
+    if what:
+        ctx.failure("window-conservation:indexed-key", what, case, oracle="documented meaning of key=<index | field name>")
+
+
 def run(ctx):
     ctx.audit(extra_modules=lean_extra("C08"))
+    for _ in range(40 if not ctx.thorough() else 600):
+        run_indexed_key_case(ctx, indexed_key_case(ctx.rng))
     n = 200 if not ctx.thorough() else 6000
     A.sweep(ctx, n, KINDS, ["windows"], SIGS, allow_zip=False, corpus=CORPUS)
     for m in corr_modules():
@@ -47,5 +148,9 @@ def run(ctx):
 def replay(ctx, data):
     ctx.audit(extra_modules=lean_extra("C08"))
     case = data["case"]
+    if case.get("indexed_key"):
+        run_indexed_key_case(ctx, case)
+        ctx.coverage["rule"] = "replay of one recorded case"
+        return
     ac.evaluate(ctx, case, ac.rerun(case), ["windows"], SIGS)
     ctx.coverage["rule"] = "replay of one recorded case"
